@@ -394,6 +394,26 @@ fn c09_inner(cx: &mut Cx, net: &mut RealNet, n: usize) -> Option<()> {
         if ranges.iter().any(|r| r.is_some()) {
             cx.count("realnet:rounds-with-a-responsible-range-set");
         }
+        // what the nodes' own routing tables say right now: a holder advertises to its real replicate candidates, and a
+        // node acts on advertisements only from peers among its own closest. Under load (or after a restart) a node may
+        // have dropped a peer from its table (connection trouble, time-outs recorded against it): the pair is then outside
+        // the clause's premise and is not judged (which peers a table should contain is C11's subject, not C09's)
+        let mut real_cands: Vec<BTreeSet<PeerId>> = vec![];
+        let mut real_closest: Vec<BTreeSet<PeerId>> = vec![];
+        for h in 0..n {
+            let me = NetworkAddress::from_peer(net.nodes[h].peer);
+            match (net.with_driver(h, move |d| d.verif_get_replicate_candidates(&me)), net.with_driver(h, |d| d.verif_closest_k_value_local_peers())) {
+                (Ok(c), Ok(k)) => {
+                    real_cands.push(c.into_iter().collect());
+                    real_closest.push(k.into_iter().collect());
+                }
+                (Err(e), _) | (_, Err(e)) => {
+                    cx.count("realnet:abandoned:harness-error");
+                    cx.log(e);
+                    return None;
+                }
+            }
+        }
         // safety: nothing but accepted content anywhere.
         // progress (judged at a fixpoint only): a node that is a replication target of a holder, and for which the
         // key is in range, has absorbed that holder's content (chunk held; union of sets; the higher counter)
@@ -414,7 +434,11 @@ fn c09_inner(cx: &mut Cx, net: &mut RealNet, n: usize) -> Option<()> {
                 if !in_range(net, i, &it.key, &ranges[i]) {
                     continue;
                 }
-                let mut inputs: Vec<Held> = (0..n).filter(|h| *h != i && targets_of[*h].contains(&i)).map(|h| st[k][h].clone()).filter(|h| *h != Held::None).collect();
+                let linked = |h: usize| real_cands[h].contains(&net.nodes[i].peer) && real_closest[i].contains(&net.nodes[h].peer);
+                if (0..n).any(|h| h != i && targets_of[h].contains(&i) && st[k][h] != Held::None && !linked(h)) {
+                    cx.count("realnet:holder-target-pairs-not-judged(one-has-dropped-the-other-from-its-routing-table)");
+                }
+                let mut inputs: Vec<Held> = (0..n).filter(|h| *h != i && targets_of[*h].contains(&i) && linked(*h)).map(|h| st[k][h].clone()).filter(|h| *h != Held::None).collect();
                 if inputs.is_empty() {
                     continue;
                 }
